@@ -679,6 +679,10 @@ class Machine:
             if isinstance(v, list):
                 v.append(args[0]) if short == "append" else v.extend(args[0])
                 return None
+        if name in ("itertools.compress", "compress") and len(args) == 2 and all(isinstance(a_, (list, tuple)) for a_ in args):
+            return [d_ for d_, s_ in zip(args[0], args[1]) if self.truth(s_, e)]
+        if name in ("itertools.chain", "chain") and args and all(isinstance(a_, (list, tuple)) for a_ in args):
+            return [x_ for a_ in args for x_ in a_]
         if name in ("itertools.count", "count"):
             return ("count", args[0] if args else 0)
         if name == "range" and all(isinstance(a, int) for a in args):
